@@ -182,6 +182,7 @@ func RunScenario(t *testing.T, sc *Scenario) *Outcome {
 			w := NewWire(world)
 			w.Faults = sc.Faults
 			w.FiltersOff = sc.FiltersOff
+			w.MaxVirtual = 3*scenarioBound(sc) + 10*time.Second
 			out.Wire = w
 			packets.SetVerifHooks(w.Hooks())
 			defer packets.SetVerifHooks(nil)
@@ -222,4 +223,23 @@ func RunScenario(t *testing.T, sc *Scenario) *Outcome {
 	}
 	out.FdAfter = countFds()
 	return out
+}
+
+// scenarioBound is the termination bound computable from the parameters (C08).
+func scenarioBound(sc *Scenario) time.Duration {
+	n := time.Duration(sc.MaxTTL - sc.MinTTL + 1)
+	if n < 1 {
+		n = 1
+	}
+	switch {
+	case sc.Serial():
+		per := sc.Timeout() + sc.Poll()
+		if sc.Delay() > per {
+			per = sc.Delay()
+		}
+		return n * per
+	case sc.Variant == "sack":
+		return 500*time.Millisecond + sc.Timeout() + n*sc.Delay() + sc.Poll()
+	}
+	return sc.Timeout() + n*sc.Delay() + sc.Poll()
 }
